@@ -1,6 +1,7 @@
 import ShootVerif.Spec.GetSet
 import ShootVerif.Proofs.CtorMain
 import ShootVerif.Proofs.Directive
+import ShootVerif.Proofs.TypeMap
 /-!
 C03 — with -getset each unexported field gets exactly the accessors its `get`/`set` field directive
 and the type-level `getter`/`setter` directive call for (both when undirected, none for exported
@@ -153,6 +154,21 @@ example :
     wfOnce t = true ∧ (gen none (fun _ => (none, none)) t).getters = ["B", "Ro"] ∧
       (gen none (fun _ => (none, none)) t).setters = ["SetB"] ∧
       (gen (some (true, false)) (fun _ => (none, none)) t).setters = [] := by
+  decide
+
+/-- the result type of a getter and the parameter type of a setter are the type of the field: the name-keyed `TypeMap`
+    of makeNew, which the template consults for both (`{{index $.TypeMap .}}`; Model/TypeMap.lean), answers with the printed
+    type of that very field for every leaf that Go's selector rule does not hide and that is not left out — provided the
+    visible field names are pairwise distinct (with a hidden namesake the map still answers for the visible one) -/
+theorem C03_accessor_types (t : Tree) (hnd : wfFieldNames t = true) (l : Leaf) (hl : l ∈ leavesTop t)
+    (hsk : l.info.skip = false) (hvis : goShadowed t l.depth l.info.name = false) :
+    typeMap (flatten t) l.info.name = some l.info.ptype :=
+  typeMap_of_leaf t hnd l hl hsk (by rw [shadow_agrees t l hl]; exact hvis)
+
+example : wfFieldNames (.field { name := "id", ptype := "int" }
+    (.embed "Base" "Base" false false (.field { name := "id", ptype := "string" } (.field { name := "age", ptype := "uint8" } .nil)) .nil)) = true ∧
+    typeMap (flatten (.field { name := "id", ptype := "int" }
+      (.embed "Base" "Base" false false (.field { name := "id", ptype := "string" } (.field { name := "age", ptype := "uint8" } .nil)) .nil))) "id" = some "int" := by
   decide
 
 end ShootVerif.GetSet
